@@ -99,6 +99,11 @@ pub struct Case {
     pub entries: Vec<Entry>,
     /// (delay since previous action in ms, action)
     pub schedule: Vec<(u32, Action)>,
+    /// epilogue: the table is emptied (0 = KnownPeers::remove_all, 1 = remove every entry, 2 = every
+    /// entry re-inserted with affinity Never), every target then disconnects the dialer; nobody
+    /// may be dialed any more
+    #[serde(default)]
+    pub epilogue: Option<u8>,
 }
 
 struct Target {
@@ -237,7 +242,14 @@ pub fn check(case: &Case, obs: &mut Obs) -> Result<(), Fail> {
                 t.up.push((sim.now_ms(), None));
             }
         }
-        let tail = 3 * (cto + maxb + 2 * interval) + 1_000;
+        // Under a binding cap attempts are serialized: every address of every reachable High peer may cost
+        // a full connect timeout plus backoff, interleaved with the attempts of the hopeless ones.
+        let high = |e: &Entry| e.affinity % 3 == 0 && !e.is_self && !e.addrs.is_empty();
+        let reachable_addrs: u64 = entries.iter().filter(|e| high(e) && e.addrs.iter().take(3).any(|k| *k == AddrKind::Live)).map(|e| e.addrs.len().min(3) as u64).sum();
+        let hopeless_n = entries.iter().filter(|e| high(e) && !e.addrs.iter().take(3).any(|k| *k == AddrKind::Live)).count() as u64;
+        let demand_n = entries.iter().filter(|e| high(e)).count() + case.schedule.iter().filter(|(_, a)| matches!(a, Action::ExplicitDialDead)).count();
+        let serialized = if demand_n > cap { (reachable_addrs + 1) * (hopeless_n + 1) * (cto + maxb + 2 * interval) } else { 0 };
+        let tail = (3 * (cto + maxb + 2 * interval) + 1_000).max(serialized);
         sleep_ms(tail).await;
         let end = sim.now_ms();
         sim.health()?;
@@ -390,6 +402,26 @@ pub fn check(case: &Case, obs: &mut Obs) -> Result<(), Fail> {
             vensure!(ok, "c13:connected-to-unknown", "the dialer lists {p}, which is in no table entry");
         }
         let _ = schedule_end;
+        // ---- epilogue: an emptied table stops the dialing
+        if let Some(how) = case.epilogue {
+            match how % 3 {
+                0 => { n.net.known_peers().remove_all(); }
+                1 => { for e in 0..entries.len() { n.net.known_peers().remove(&entry_id(e)); } }
+                _ => { for e in 0..entries.len() { n.net.known_peers().insert(PeerInfo { peer_id: entry_id(e), affinity: PeerAffinity::Never, address: vec![] }); } }
+            }
+            let t_clear = sim.now_ms();
+            sleep_ms(5).await;
+            for t in targets.values() {
+                if let Some(node) = &t.node { let _ = node.net.disconnect(n_id); }
+            }
+            sleep_ms(3 * interval + cto + 2 * maxb.min(10_000)).await;
+            for a in sim.fabric.attempts() {
+                if a.src != n.addr() || a.dst == explicit_dead || a.t_ms <= t_clear + 5 { continue; }
+                vfail!("c13:dialed-removed-peer", "the table was emptied at {t_clear} ms ({}); at {} ms the dialer still started a connection attempt to {}", ["remove_all", "remove of every entry", "every entry set to Never"][how as usize % 3], a.t_ms, a.dst);
+            }
+            vensure!(n.net.peers().is_empty(), "c13:dialed-removed-peer", "after the table was emptied and every target disconnected the dialer, it lists {:?}", n.net.peers());
+            obs.label("epilogue:table-emptied");
+        }
         obs.evals(atts.len() as u64);
         if starvation_checked { obs.label("liveness-checked-under-binding-cap"); }
         if streak2 { obs.label(">=2-failures-then-success"); }
@@ -416,8 +448,8 @@ impl Part for Schedules {
             .prop_map(|(affinity, addrs, is_self)| Entry { affinity, addrs, is_self });
         let act = prop_oneof![3 => (0u8..5).prop_map(Action::Stop), 3 => (0u8..5).prop_map(Action::Start), 2 => (0u8..5).prop_map(Action::Kick), 2 => Just(Action::ExplicitDialDead)];
         (200u16..10_000, 100u16..20_000, 1_000u32..120_000, 500u16..10_000, prop_oneof![3 => 1u8..6, 1 => Just(100u8)], prop::collection::vec(entry, 1..6),
-         prop::collection::vec((prop_oneof![0u32..2_000, 2_000u32..60_000], act), 0..10))
-            .prop_map(|(interval_ms, step_ms, max_ms, connect_timeout_ms, cap, entries, schedule)| Case { interval_ms, step_ms, max_ms, connect_timeout_ms, cap, entries, schedule })
+         prop::collection::vec((prop_oneof![0u32..2_000, 2_000u32..60_000], act), 0..10), prop::option::weighted(0.4, 0u8..3))
+            .prop_map(|(interval_ms, step_ms, max_ms, connect_timeout_ms, cap, entries, schedule, epilogue)| Case { interval_ms, step_ms, max_ms, connect_timeout_ms, cap, entries, schedule, epilogue })
             .boxed()
     }
     fn run(&self, c: &Case, obs: &mut Obs) -> Result<(), Fail> { check(c, obs) }
